@@ -34,7 +34,7 @@ std::string dimsToStr(const std::vector<size_t>& d) { std::ostringstream o; o <<
 static std::string upperS(std::string s) { for (size_t i = 0; i < s.size(); ++i) s[i] = (char)toupper((unsigned char)s[i]); return s; }
 
 Hist::Hist(const Opts& o_, long idx_, CaseLog& log_) : o(o_), idx(idx_), log(log_), rng(o_.seed, (uint64_t)idx_ * 7919 + fnv(o_.profile)),
-    wild(o_.wild || (o_.geti("wildpct", 0) > 0 && (long)(Rng(o_.seed, (uint64_t)idx_ * 13 + 5).below(100)) < o_.geti("wildpct", 0))), managedEdited(false), declaredByName(true), external(false), specialFloats(false), analogIncomplete(false), columnOverGaps(false), columnOverGapsReported(false), pendingUnspecified(false), hadUnspecified(false), fileOffSpec(false), caseVariantNames(false), offSpec(false), namedChannels(false), nSaves(0) {
+    wild(o_.wild || (o_.geti("wildpct", 0) > 0 && (long)(Rng(o_.seed, (uint64_t)idx_ * 13 + 5).below(100)) < o_.geti("wildpct", 0))), managedEdited(false), declaredByName(true), external(false), specialFloats(false), analogIncomplete(false), columnOverGaps(false), columnOverGapsReported(false), pendingUnspecified(false), hadUnspecified(false), fileOffSpec(false), beyondInt16(false), caseVariantNames(false), offSpec(false), namedChannels(false), nSaves(0) {
     char b[600]; snprintf(b, sizeof b, "%s/tmp_%ld", o.out.c_str(), idx); tmp = b; mkdir(tmp.c_str(), 0755);
 }
 
